@@ -23,7 +23,7 @@ KeepsGoing(cf, c, n) == Cardinality(HeightsOf(c, n)) >= cf.min_blocks
 Bad == UNION { LET cf == Rows[ci]  c == cf.cfg IN
                  (IF Agreement(c) THEN {} ELSE {<<"Agreement", c, -1>>})
                  \cup UNION { (IF Gapless(c, n) THEN {} ELSE {<<"Gapless", c, n>>})
-                              \cup (IF KeepsGoing(cf, c, n) \/ n = cf.blocked THEN {} ELSE {<<"KeepsGoing", c, n>>}) : n \in NodesOf(cf) }
+                              \cup (IF KeepsGoing(cf, c, n) THEN {} ELSE {<<"KeepsGoing", c, n>>}) : n \in NodesOf(cf) }
                : ci \in Cfgs }
 VARIABLE x
 Init == x = 0 /\ (\A b \in Bad : PrintT(<<"VIOL", "C17", b[1], b[2], b[3]>>)) /\ PrintT(<<"SIM-SUMMARY", Len(Rows), Cardinality(Bad)>>)
